@@ -260,6 +260,14 @@ func init() {
 		}
 		f.Raw("c16AckLocked", "Bool", leanBool(ackLocked))
 
+		// --- MigrateProfile: every error exit after `s.state.Set(stateMoving)` rolls the flag back ---
+		// (a Session left "moving" never sends its final SvShutdown and never closes its Done channel)
+		noRollback, err := c16MigrateExits(repo + "/c2/session.go")
+		if err != nil {
+			return err
+		}
+		f.Nat("c16MigrateExitsNoRollback", noRollback)
+
 		// --- constants ----------------------------------------------------------------------------
 		f.Nat("c16MaxErrors", uint64(c2.VerifC16MaxErrors))
 		lf, err := parse("c2/listener.go")
@@ -290,4 +298,85 @@ func init() {
 		f.Nat("c16SendCap", caps[0])
 		return nil
 	})
+}
+
+// c16MigrateExits counts the error returns (`return 0, …`) of (*Session).MigrateProfile that come after
+// the call s.state.Set(stateMoving) and whose own block does not call s.state.Unset(stateMoving) before
+// returning.
+func c16MigrateExits(file string) (uint64, error) {
+	fs := token.NewFileSet()
+	af, err := parser.ParseFile(fs, file, nil, 0)
+	if err != nil {
+		return 0, err
+	}
+	isCall := func(e ast.Expr, method string) bool {
+		ce, ok := e.(*ast.CallExpr)
+		if !ok || len(ce.Args) != 1 {
+			return false
+		}
+		se, ok := ce.Fun.(*ast.SelectorExpr)
+		if !ok || se.Sel.Name != method {
+			return false
+		}
+		a, ok := ce.Args[0].(*ast.Ident)
+		return ok && a.Name == "stateMoving"
+	}
+	for _, d := range af.Decls {
+		fd, ok := d.(*ast.FuncDecl)
+		if !ok || fd.Name.Name != "MigrateProfile" || fd.Body == nil {
+			continue
+		}
+		setPos := token.NoPos
+		ast.Inspect(fd.Body, func(n ast.Node) bool {
+			if ce, ok := n.(*ast.CallExpr); ok && isCall(ce, "Set") && setPos == token.NoPos {
+				setPos = ce.Pos()
+			}
+			return true
+		})
+		if setPos == token.NoPos {
+			return 0, fmt.Errorf("c16 facts: s.state.Set(stateMoving) not found in MigrateProfile")
+		}
+		bad := uint64(0)
+		var visit func(list []ast.Stmt)
+		visit = func(list []ast.Stmt) {
+			rolled := false
+			for _, st := range list {
+				switch x := st.(type) {
+				case *ast.ExprStmt:
+					if isCall(x.X, "Unset") {
+						rolled = true
+					}
+				case *ast.ReturnStmt:
+					if x.Pos() > setPos && len(x.Results) == 2 {
+						if bl, ok := x.Results[0].(*ast.BasicLit); ok && bl.Value == "0" && !rolled {
+							bad++
+						}
+					}
+				case *ast.IfStmt:
+					if in, ok := x.Init.(*ast.ExprStmt); ok && isCall(in.X, "Unset") {
+						rolled = true // `if s.state.Unset(stateMoving); … {`
+					}
+					visit(x.Body.List)
+					if el, ok := x.Else.(*ast.BlockStmt); ok {
+						visit(el.List)
+					}
+				case *ast.BlockStmt:
+					visit(x.List)
+				case *ast.ForStmt:
+					visit(x.Body.List)
+				case *ast.SwitchStmt:
+					for _, c := range x.Body.List {
+						visit(c.(*ast.CaseClause).Body)
+					}
+				case *ast.SelectStmt:
+					for _, c := range x.Body.List {
+						visit(c.(*ast.CommClause).Body)
+					}
+				}
+			}
+		}
+		visit(fd.Body.List)
+		return bad, nil
+	}
+	return 0, fmt.Errorf("c16 facts: MigrateProfile not found")
 }
